@@ -1,0 +1,92 @@
+//go:build verif
+
+package hashgraph
+
+// Read-only accessors used by the /verif correspondence harness. This file is
+// only compiled with the "verif" build tag and does not modify any existing
+// behaviour.
+
+// VerifRound returns the event's private round field.
+func (e *Event) VerifRound() (int, bool) {
+	if e.round == nil {
+		return 0, false
+	}
+	return *e.round, true
+}
+
+// VerifLamport returns the event's private lamportTimestamp field.
+func (e *Event) VerifLamport() (int, bool) {
+	if e.lamportTimestamp == nil {
+		return 0, false
+	}
+	return *e.lamportTimestamp, true
+}
+
+// VerifRoundReceived returns the event's private roundReceived field.
+func (e *Event) VerifRoundReceived() (int, bool) {
+	if e.roundReceived == nil {
+		return 0, false
+	}
+	return *e.roundReceived, true
+}
+
+// VerifTopologicalIndex returns the event's private topologicalIndex.
+func (e *Event) VerifTopologicalIndex() int { return e.topologicalIndex }
+
+// VerifLastAncestors returns the event's lastAncestors coordinates.
+func (e *Event) VerifLastAncestors() CoordinatesMap { return e.lastAncestors }
+
+// VerifFirstDescendants returns the event's firstDescendants coordinates.
+func (e *Event) VerifFirstDescendants() CoordinatesMap { return e.firstDescendants }
+
+// VerifWireInfo returns the private wire fields of the body.
+func (e *Event) VerifWireInfo() (selfParentIndex int, otherParentCreatorID uint32, otherParentIndex int, creatorID uint32) {
+	return e.Body.selfParentIndex, e.Body.otherParentCreatorID, e.Body.otherParentIndex, e.Body.creatorID
+}
+
+// VerifRoundLowerBound returns the hashgraph's roundLowerBound.
+func (h *Hashgraph) VerifRoundLowerBound() (int, bool) {
+	if h.roundLowerBound == nil {
+		return 0, false
+	}
+	return *h.roundLowerBound, true
+}
+
+// VerifTopologicalIndex returns the hashgraph's insertion counter.
+func (h *Hashgraph) VerifTopologicalIndex() int { return h.topologicalIndex }
+
+// VerifDecided returns the RoundInfo's sticky decided flag.
+func (r *RoundInfo) VerifDecided() bool { return r.decided }
+
+// VerifMiddleBit exposes the coin-round bit of an event hash.
+func VerifMiddleBit(ehex string) bool { return middleBit(ehex) }
+
+// VerifDBTopologicalEvents exposes the DB-level topological listing.
+func (s *BadgerStore) VerifDBTopologicalEvents(skip, count int) ([]*Event, error) {
+	return s.dbTopologicalEvents(skip, count)
+}
+
+// VerifDBGetEvent exposes the DB-level event read.
+func (s *BadgerStore) VerifDBGetEvent(key string) (*Event, error) { return s.dbGetEvent(key) }
+
+// VerifDBGetBlock exposes the DB-level block read.
+func (s *BadgerStore) VerifDBGetBlock(index int) (*Block, error) { return s.dbGetBlock(index) }
+
+// VerifDBGetRound exposes the DB-level round read.
+func (s *BadgerStore) VerifDBGetRound(index int) (*RoundInfo, error) { return s.dbGetRound(index) }
+
+// VerifDBGetFrame exposes the DB-level frame read.
+func (s *BadgerStore) VerifDBGetFrame(index int) (*Frame, error) { return s.dbGetFrame(index) }
+
+// VerifDBGetPeerSet exposes the DB-level peer-set read.
+func (s *BadgerStore) VerifDBGetPeerSet(round int) (interface{}, error) { return s.dbGetPeerSet(round) }
+
+// VerifDBGetRoot exposes the DB-level root read.
+func (s *BadgerStore) VerifDBGetRoot(participant string) (*Root, error) {
+	return s.dbGetRoot(participant)
+}
+
+// VerifDBParticipantEvents exposes the DB-level participant listing.
+func (s *BadgerStore) VerifDBParticipantEvents(participant string, skip int) ([]string, error) {
+	return s.dbParticipantEvents(participant, skip)
+}
